@@ -166,7 +166,9 @@ def result_case(draw):
     n_rdm = draw(st.integers(3, 6))
     n_pairs = n_cond * (n_cond - 1) // 2
     flexible = routine in ('bcv_both', 'bcv_pattern', 'bcv_rdm', 'dual', 'crossval', 'manual')
-    kinds = ['fixed', 'fixed', 'select', 'interpolate', 'weighted'] if flexible else ['fixed']
+    kinds = ['fixed', 'fixed', 'select', 'interpolate'] if flexible else ['fixed']
+    if routine in ('crossval', 'manual'):
+        kinds = kinds + ['weighted']        # BFGS fits: only where few fits are needed
     if routine == 'manual':
         kinds = kinds + ['abstract']
     models = draw(st.lists(st.sampled_from(kinds), min_size=1, max_size=3))
@@ -766,16 +768,17 @@ def classify_grid(case):
 
 
 SUBCHECKS = [
-    SubCheck('rdms', rdms_case(), check_rdms, classify_rdms, quick=400,
+    SubCheck('rdms', rdms_case(), check_rdms, classify_rdms, quick=400, thorough=6000,
              doc='RDMs after a short structural history: save/load in both formats to path / BytesIO / '
                  'open file; own field-wise equality, library ==, in-memory object unchanged'),
-    SubCheck('dataset', dataset_case(), check_dataset, classify_dataset, quick=300,
+    SubCheck('dataset', dataset_case(), check_dataset, classify_dataset, quick=300, thorough=5000,
              doc='Dataset / TemporalDataset after a C11 history, decorated with all descriptor types'),
-    SubCheck('result', result_case(), check_result, classify_result, quick=200,
+    SubCheck('result', result_case(), check_result, classify_result, quick=200, thorough=3000,
              doc='Results of every evaluation routine and hand-built ones with all model classes: '
                  'evaluations, variances, dof, derived variances, test_all x 3 test types, model '
                  'classes / names / predictions'),
     SubCheck('overwrite', overwrite_case(), check_overwrite, classify_overwrite, quick=200,
+             thorough=3000,
              doc='existing target x overwrite flag: ValueError + unchanged bytes for HDF5 paths, '
                  'exactly the new object after overwrite=True (path or open file, both formats)'),
     core.Enumeration('grid', enumerate_grid, check_grid, classify_grid,
